@@ -179,6 +179,15 @@ PROPS = {
         "trusted_base": BASE_TRUST + ["the decoder used by the oracle is the crate's own (verified against the specification by check C03)"],
         "assumptions": ["the BC encoders are not modelled; the bounds are checked on generated inputs only"],
     },
+    "C16": {
+        "kernel_sample": 10,
+        "harness_timeout": 3000,
+        "rule": "implementation-only oracle, debug and release builds, through Encoder::write_surface with automatic generation into a lossless target format of the input's precision and read back with Decoder: 40 (thorough 400) random sizes in 1..40 x 1..40 plus powers of two up to 256 and extreme aspect ratios (256x1, 1x256, 128x3, 5x200, 17x16, 31x33) x 12 colour formats x 5 filters x straight-alpha on/off x {contiguous, unaligned, row-pitched} input; "
+                "exactly 32 - clz(max(w,h)) levels of size max(1, dim >> level) and no bytes after the last; a constant image (alpha 1, 0.5, and a tiny non-zero alpha) stays that colour; fully opaque stays opaque; with nearest/box/triangle every value within one unit of its channel's source range (colour of fully transparent straight-alpha pixels exempt); "
+                "with straight-alpha off the colour channels do not depend on alpha; the three input layouts give identical files; generation started at a hand-written level 1 continues with levels 2..n generated from it",
+        "trusted_base": BASE_TRUST + ["the resampling is done by the external `resize` crate in floating point; it is exercised, not modelled"],
+        "assumptions": ["F32 results are compared with a relative tolerance of 1e-4 (constant colour) and one 16-bit unit (opacity, range)"],
+    },
     "C19": {
         "kernel_sample": 150,
         "rule": "systematic sweep of headers: every valid DXGI code x 5 alpha modes, the 27 table FourCCs + 60 boundary/arbitrary u32 FourCCs, every mask row with every one-bit perturbation of its red mask, alpha mask and flags and every bit count; "
